@@ -253,21 +253,30 @@ def Integral (f : Rat → Nat → Option Rat) : Prop :=
 
 /-- the loop invariant: `done` tiles `[first, n)` numbered from 1, `todo` are the untouched existing
     measures from `n` on, the existing ones already passed are among `done` with their extents -/
-def Inv (first : Nat) (orig : List Measure) (tsEnd : Nat) (s : St) : Prop :=
+def Inv (Q : Measure → Prop) (first : Nat) (orig : List Measure) (tsEnd : Nat) (s : St) : Prop :=
   ∃ (n : Nat) (done todo consumed : List Measure),
     s.pos = (n : Rat) ∧ n ≤ tsEnd ∧ s.ms = done ++ todo ∧ TN first 1 done n s.mc ∧ TD n todo ∧
-    orig = consumed ++ todo ∧ (consumed.map ext).Sublist (done.map ext)
+    orig = consumed ++ todo ∧ (consumed.map ext).Sublist (done.map ext) ∧
+    ∀ m ∈ done, (∃ x ∈ orig, ext x = ext m) ∨ Q m
 
-theorem seg_inv (f : Rat → Nat → Option Rat) (hf : Integral f) (first : Nat) (orig : List Measure) (tsEnd beats : Nat)
+/-- why an added measure `[start, stop)` of a stretch ending at `tsEnd` with `beats` beats per bar has the
+    extent it has: it ends where the bar-end map says a full bar from `start` ends, or earlier because the stretch
+    ends (next signature change / end of the part) or an existing measure starts there -/
+def JSeg (f : Rat → Nat → Option Rat) (orig : List Measure) (tsEnd beats : Nat) (m : Measure) : Prop :=
+  ∃ w : Nat, f (m.start : Rat) beats = some (w : Rat) ∧ m.start < tsEnd ∧ m.stop ≤ w ∧ m.stop ≤ tsEnd ∧
+    (m.stop = w ∨ m.stop = tsEnd ∨ ∃ x ∈ orig, x.start = m.stop)
+
+theorem seg_inv (f : Rat → Nat → Option Rat) (hf : Integral f) (Q : Measure → Prop) (first : Nat) (orig : List Measure)
+    (tsEnd beats : Nat) (hQ : ∀ m, JSeg f orig tsEnd beats m → Q m)
     (hns : ∀ m ∈ orig, ¬ (m.start < tsEnd ∧ tsEnd < m.stop)) :
-    ∀ (fuel : Nat) (s s' : St), Inv first orig tsEnd s → segLoop f tsEnd beats fuel s = .ok s' →
-      Inv first orig tsEnd s' ∧ s'.pos = (tsEnd : Rat) := by
+    ∀ (fuel : Nat) (s s' : St), Inv Q first orig tsEnd s → segLoop f tsEnd beats fuel s = .ok s' →
+      Inv Q first orig tsEnd s' ∧ s'.pos = (tsEnd : Rat) := by
   intro fuel
   induction fuel with
   | zero => intro s s' _ h; simp [segLoop] at h
   | succ fuel ih =>
     intro s s' hinv h
-    obtain ⟨n, done, todo, consumed, hpos, hle, hms, htn, htd, horig, hsub⟩ := hinv
+    obtain ⟨n, done, todo, consumed, hpos, hle, hms, htn, htd, horig, hsub, hq⟩ := hinv
     by_cases hlt : s.pos < (tsEnd : Rat)
     swap
     · rw [seg_stop _ _ _ _ _ hlt] at h
@@ -275,7 +284,7 @@ theorem seg_inv (f : Rat → Nat → Option Rat) (hf : Integral f) (first : Nat)
       subst h
       have : ¬ (n < tsEnd) := by intro hc; apply hlt; rw [hpos]; exact_mod_cast hc
       have hn : n = tsEnd := by omega
-      exact ⟨⟨n, done, todo, consumed, hpos, hle, hms, htn, htd, horig, hsub⟩, by rw [hpos, hn]⟩
+      exact ⟨⟨n, done, todo, consumed, hpos, hle, hms, htn, htd, horig, hsub, hq⟩, by rw [hpos, hn]⟩
     · have hnlt : n < tsEnd := by rw [hpos] at hlt; exact_mod_cast hlt
       cases hfv : f s.pos beats with
       | none =>
@@ -284,6 +293,7 @@ theorem seg_inv (f : Rat → Nat → Option Rat) (hf : Integral f) (first : Nat)
         cases h
       | some be =>
         obtain ⟨w, hw, hnw⟩ := hf n beats be (by rw [← hpos]; exact hfv)
+        have hfw : f (n : Rat) beats = some (w : Rat) := by rw [← hpos, ← hw]; exact hfv
         have hme : snap (pyMin (tsEnd : Rat) be) = ((min tsEnd w : Nat) : Rat) := by
           rw [hw, pyMin_nat, snap_nat]
         have hnh : n < min tsEnd w := by omega
@@ -308,7 +318,7 @@ theorem seg_inv (f : Rat → Nat → Option Rat) (hf : Integral f) (first : Nat)
           rw [insertMeasure_append _ _ _ (by intro a ha; exact hdle a ha)
             (by intro a ha; have := hhead a ha; show n < a.start; omega)] at h
           apply ih _ s' _ h
-          refine ⟨min tsEnd w, done ++ [⟨n, min tsEnd w, some s.mc⟩], todo, consumed, rfl, hhle, by simp, ?_, ?_, horig, ?_⟩
+          refine ⟨min tsEnd w, done ++ [⟨n, min tsEnd w, some s.mc⟩], todo, consumed, rfl, hhle, by simp, ?_, ?_, horig, ?_, ?_⟩
           · apply tn_append _ _ _ _ _ _ _ _ htn
             exact (tn_cons ..).mpr ⟨rfl, hnh, rfl, (tn_nil ..).mpr ⟨rfl, rfl⟩⟩
           · cases todo with
@@ -318,6 +328,17 @@ theorem seg_inv (f : Rat → Nat → Option Rat) (hf : Integral f) (first : Nat)
               exact (td_cons ..).mpr ⟨hhead m rfl, t2, t3⟩
           · rw [List.map_append]
             exact hsub.trans (List.sublist_append_left _ _)
+          · intro m hm
+            rcases List.mem_append.mp hm with hm | hm
+            · exact hq m hm
+            · simp only [List.mem_singleton] at hm
+              subst hm
+              right
+              apply hQ
+              refine ⟨w, hfw, hnlt, Nat.min_le_right _ _, hhle, ?_⟩
+              rcases Nat.le_total tsEnd w with hc | hc
+              · right; left; exact Nat.min_eq_left hc
+              · left; exact Nat.min_eq_right hc
         cases todo with
         | nil => exact caseNew rfl (by intro a ha; simp at ha)
         | cons m rest =>
@@ -338,11 +359,17 @@ theorem seg_inv (f : Rat → Nat → Option Rat) (hf : Integral f) (first : Nat)
               rw [seg_at _ _ _ _ _ _ _ _ hlt hfv hwin h4 h5, hms, setNumber_append] at h
               apply ih _ s' _ h
               refine ⟨m.stop, done ++ [{ m with number := some s.mc }], rest, consumed ++ [m], rfl, hstop, by simp, ?_, t3,
-                by rw [horig]; simp, ?_⟩
+                by rw [horig]; simp, ?_, ?_⟩
               · apply tn_append _ _ _ _ _ _ _ _ htn
                 exact (tn_cons ..).mpr ⟨hat, t2, rfl, (tn_nil ..).mpr ⟨rfl, rfl⟩⟩
               · rw [List.map_append, List.map_append]
                 exact hsub.append (List.Sublist.refl _)
+              · intro x hx
+                rcases List.mem_append.mp hx with hx | hx
+                · exact hq x hx
+                · simp only [List.mem_singleton] at hx
+                  subst hx
+                  left; exact ⟨m, hmorig, rfl⟩
             · have h4 : ¬ ((m.start : Rat) = s.pos) := by
                 rw [hpos]; intro hc; apply hat; exact_mod_cast hc
               have hgt : n < m.start := by omega
@@ -351,7 +378,7 @@ theorem seg_inv (f : Rat → Nat → Option Rat) (hf : Integral f) (first : Nat)
                 (by intro a ha; simp only [List.head?_cons, Option.some.injEq] at ha; subst ha; exact hgt)] at h
               apply ih _ s' _ h
               refine ⟨m.stop, done ++ [⟨n, m.start, some s.mc⟩, { m with number := some (s.mc + 1) }], rest, consumed ++ [m],
-                rfl, hstop, by simp, ?_, t3, by rw [horig]; simp, ?_⟩
+                rfl, hstop, by simp, ?_, t3, by rw [horig]; simp, ?_, ?_⟩
               · apply tn_append _ _ _ _ _ _ _ _ htn
                 refine (tn_cons ..).mpr ⟨rfl, hgt, rfl, (tn_cons ..).mpr ⟨rfl, t2, rfl, (tn_nil ..).mpr ⟨rfl, ?_⟩⟩⟩
                 show s.mc + 1 + 1 = s.mc + 2
@@ -359,6 +386,18 @@ theorem seg_inv (f : Rat → Nat → Option Rat) (hf : Integral f) (first : Nat)
               · rw [List.map_append, List.map_append]
                 apply hsub.append
                 exact List.Sublist.cons _ (List.Sublist.refl _)
+              · intro x hx
+                rcases List.mem_append.mp hx with hx | hx
+                · exact hq x hx
+                · simp only [List.mem_cons, List.mem_singleton, List.not_mem_nil, or_false] at hx
+                  rcases hx with hx | hx
+                  · subst hx
+                    right
+                    apply hQ
+                    exact ⟨w, hfw, hnlt, by show m.start ≤ w; omega, by show m.start ≤ tsEnd; omega,
+                      Or.inr (Or.inr ⟨m, hmorig, rfl⟩)⟩
+                  · subst hx
+                    left; exact ⟨m, hmorig, rfl⟩
           · -- the first remaining measure starts at or after the bar end: nothing in the window
             apply caseNew
             · apply firstInWindow_none_of
@@ -377,10 +416,11 @@ theorem seg_inv (f : Rat → Nat → Option Rat) (hf : Integral f) (first : Nat)
 
 
 /-- the invariant between stretches, at time `n` -/
-def InvAt (first : Nat) (orig : List Measure) (n : Nat) (ms : List Measure) (mc : Int) : Prop :=
+def InvAt (Q : Measure → Prop) (first : Nat) (orig : List Measure) (n : Nat) (ms : List Measure) (mc : Int) : Prop :=
   ∃ (done todo consumed : List Measure),
     ms = done ++ todo ∧ TN first 1 done n mc ∧ TD n todo ∧
-    orig = consumed ++ todo ∧ (consumed.map ext).Sublist (done.map ext)
+    orig = consumed ++ todo ∧ (consumed.map ext).Sublist (done.map ext) ∧
+    ∀ m ∈ done, (∃ x ∈ orig, ext x = ext m) ∨ Q m
 
 /-- the stretches chain from `a` to `z` -/
 def SC : Nat → Nat → List (Nat × Nat × Nat) → Prop
@@ -390,21 +430,23 @@ def SC : Nat → Nat → List (Nat × Nat × Nat) → Prop
 theorem sc_cons (a z s e b : Nat) (rest : List (Nat × Nat × Nat)) :
     SC a z ((s, e, b) :: rest) ↔ (s = a ∧ s ≤ e ∧ SC e z rest) := Iff.rfl
 
-theorem run_inv (f : Rat → Nat → Option Rat) (hf : Integral f) (first : Nat) (orig : List Measure) (fuel : Nat) :
+theorem run_inv (f : Rat → Nat → Option Rat) (hf : Integral f) (Q : Measure → Prop) (first : Nat) (orig : List Measure)
+    (fuel : Nat) :
     ∀ (l : List (Nat × Nat × Nat)) (a z : Nat) (ms : List Measure) (mc : Int) (ms' : List Measure) (mc' : Int),
       SC a z l → (∀ m ∈ orig, ∀ x ∈ l, ¬ (m.start < x.2.1 ∧ x.2.1 < m.stop)) →
-      InvAt first orig a ms mc → runStretches f fuel l ms mc = .ok (ms', mc') → InvAt first orig z ms' mc' := by
+      (∀ x ∈ l, ∀ m, JSeg f orig x.2.1 x.2.2 m → Q m) →
+      InvAt Q first orig a ms mc → runStretches f fuel l ms mc = .ok (ms', mc') → InvAt Q first orig z ms' mc' := by
   intro l
   induction l with
   | nil =>
-    intro a z ms mc ms' mc' hsc _ hinv h
+    intro a z ms mc ms' mc' hsc _ _ hinv h
     have : a = z := hsc
     subst this
     simp only [runStretches, Except.ok.injEq, Prod.mk.injEq] at h
     obtain ⟨rfl, rfl⟩ := h
     exact hinv
   | cons x rest ih =>
-    intro a z ms mc ms' mc' hsc hns hinv h
+    intro a z ms mc ms' mc' hsc hns hQl hinv h
     obtain ⟨s, e, b⟩ := x
     obtain ⟨hs, hse, hrest⟩ := (sc_cons ..).mp hsc
     subst hs
@@ -412,16 +454,18 @@ theorem run_inv (f : Rat → Nat → Option Rat) (hf : Integral f) (first : Nat)
     split at h
     · cases h
     · rename_i st hst
-      obtain ⟨done, todo, consumed, h1, h2, h3, h4, h5⟩ := hinv
-      have hi : Inv first orig e ⟨(s : Rat), ms, mc⟩ := ⟨s, done, todo, consumed, rfl, hse, h1, h2, h3, h4, h5⟩
-      obtain ⟨⟨n, done', todo', consumed', g0, _, g1, g2, g3, g4, g5⟩, hpos⟩ :=
-        seg_inv f hf first orig e b (fun m hm => hns m hm (s, e, b) List.mem_cons_self) fuel _ st hi hst
+      obtain ⟨done, todo, consumed, h1, h2, h3, h4, h5, h6⟩ := hinv
+      have hi : Inv Q first orig e ⟨(s : Rat), ms, mc⟩ := ⟨s, done, todo, consumed, rfl, hse, h1, h2, h3, h4, h5, h6⟩
+      obtain ⟨⟨n, done', todo', consumed', g0, _, g1, g2, g3, g4, g5, g6⟩, hpos⟩ :=
+        seg_inv f hf Q first orig e b (hQl (s, e, b) List.mem_cons_self)
+          (fun m hm => hns m hm (s, e, b) List.mem_cons_self) fuel _ st hi hst
       have hn : n = e := by
         have : (n : Rat) = (e : Rat) := by rw [← g0, hpos]
         exact_mod_cast this
       subst hn
       exact ih n z st.ms st.mc ms' mc' hrest (fun m hm x hx => hns m hm x (List.mem_cons_of_mem _ hx))
-        ⟨done', todo', consumed', g1, g2, g3, g4, g5⟩ h
+        (fun x hx => hQl x (List.mem_cons_of_mem _ hx))
+        ⟨done', todo', consumed', g1, g2, g3, g4, g5, g6⟩ h
 
 /-- numbers of a numbered tiling: the `i`-th measure in time order has number `k + i` -/
 theorem tn_numbers : ∀ (l : List Measure) (a b : Nat) (k k' : Int), TN a k l b k' →
@@ -626,7 +670,8 @@ theorem add_measures_sound (f : Rat → Nat → Option Rat) (hf : Integral f) (p
     (hts : p.ts.isEmpty = false) (hne : p.first ≠ p.last)
     (hl : stretches p = some l) (hsc : SC p.first p.last l) (hex : ExistingOK p l)
     (h : addMeasuresWith f p fuel = .ok ms') :
-    TN p.first 1 ms' p.last (1 + (ms'.length : Int)) ∧ (p.measures.map ext).Sublist (ms'.map ext) := by
+    TN p.first 1 ms' p.last (1 + (ms'.length : Int)) ∧ (p.measures.map ext).Sublist (ms'.map ext) ∧
+    ∀ m ∈ ms', (∃ x ∈ p.measures, ext x = ext m) ∨ ∃ x ∈ l, JSeg f p.measures x.2.1 x.2.2 m := by
   unfold addMeasuresWith at h
   rw [hts] at h
   simp only [Bool.false_eq_true, if_false, hne, hl] at h
@@ -637,10 +682,12 @@ theorem add_measures_sound (f : Rat → Nat → Option Rat) (hf : Integral f) (p
     rw [hr] at h
     simp only [Except.map, Except.ok.injEq] at h
     subst h
-    have h0 : InvAt p.first p.measures p.first p.measures 1 :=
-      ⟨[], p.measures, [], rfl, (tn_nil ..).mpr ⟨rfl, rfl⟩, hex.ordered, rfl, List.Sublist.refl _⟩
-    obtain ⟨done, todo, consumed, g1, g2, g3, g4, g5⟩ :=
-      run_inv f hf p.first p.measures fuel l p.first p.last p.measures 1 msr mcr hsc hex.noStraddle h0 hr
+    have h0 : InvAt (fun m => ∃ x ∈ l, JSeg f p.measures x.2.1 x.2.2 m) p.first p.measures p.first p.measures 1 :=
+      ⟨[], p.measures, [], rfl, (tn_nil ..).mpr ⟨rfl, rfl⟩, hex.ordered, rfl, List.Sublist.refl _,
+        by intro m hm; simp at hm⟩
+    obtain ⟨done, todo, consumed, g1, g2, g3, g4, g5, g6⟩ :=
+      run_inv f hf _ p.first p.measures fuel l p.first p.last p.measures 1 msr mcr hsc hex.noStraddle
+        (fun x hx m hj => ⟨x, hx, hj⟩) h0 hr
     -- nothing can be left after the last point
     have htodo : todo = [] := by
       cases todo with
@@ -653,7 +700,7 @@ theorem add_measures_sound (f : Rat → Nat → Option Rat) (hf : Integral f) (p
     subst htodo
     simp only [List.append_nil] at g1 g4
     subst g1 g4
-    refine ⟨?_, g5⟩
+    refine ⟨?_, g5, g6⟩
     have := (tn_numbers _ _ _ _ _ g2).2
     rw [← this]; exact g2
 
@@ -661,7 +708,8 @@ theorem add_measures_sound (f : Rat → Nat → Option Rat) (hf : Integral f) (p
 theorem add_measures_sound' (f : Rat → Nat → Option Rat) (hf : Integral f) (p : PartM) (fuel : Nat)
     (l : List (Nat × Nat × Nat)) (ms' : List Measure) (hok : TsOK p)
     (hl : stretches p = some l) (hex : ExistingOK p l) (h : addMeasuresWith f p fuel = .ok ms') :
-    TN p.first 1 ms' p.last (1 + (ms'.length : Int)) ∧ (p.measures.map ext).Sublist (ms'.map ext) :=
+    TN p.first 1 ms' p.last (1 + (ms'.length : Int)) ∧ (p.measures.map ext).Sublist (ms'.map ext) ∧
+    ∀ m ∈ ms', (∃ x ∈ p.measures, ext x = ext m) ∨ ∃ x ∈ l, JSeg f p.measures x.2.1 x.2.2 m :=
   add_measures_sound f hf p fuel l ms' (by
       cases hts : p.ts with
       | nil => exact absurd hts hok.nonempty
